@@ -25,6 +25,7 @@ type Clause struct {
 type LoopSpec struct {
 	Invariants []*Clause
 	Decreases  *Clause
+	Steps      []*Clause // loop N: step EXPR - must hold at every back edge; thisiter("site#n") = the site was executed in this iteration
 }
 
 type Contract struct {
@@ -412,8 +413,10 @@ func (db *ContractDB) load(path string) error {
 				ls.Invariants = append(ls.Invariants, parse(e))
 			case "decreases":
 				ls.Decreases = parse(e)
+			case "step":
+				ls.Steps = append(ls.Steps, parse(e))
 			default:
-				panic(fmt.Sprintf("%s:%d: loop supports invariant/decreases", path, ln))
+				panic(fmt.Sprintf("%s:%d: loop supports invariant/decreases/step", path, ln))
 			}
 		default:
 			panic(fmt.Sprintf("%s:%d: unknown contract keyword %q", path, ln, kw))
